@@ -494,18 +494,6 @@ theorem getId_in_space {α} [DecidableEq α] (l : List α) (hn : l.Nodup) (x : O
     | none => simp [contains]
     | some i => have := idOf_bounds l v 2 i h; simp only [contains, decide_eq_true_eq]; omega
 
-/-- `ip_to_id[ip]` leaves: inside the space when the address is one the observation was told about -/
-theorem ipId_in_space (l : List String) (hn : l.Nodup) (x : Option String) (hx : ∀ ip, x = some ip → ip ∈ l) :
-    contains (.discrete (distinctCount l + 2)) (ipId l x) = true := by
-  rw [distinctCount_nodup l hn]
-  cases x with
-  | none => simp [ipId, contains]
-  | some v =>
-    simp only [ipId]
-    cases h : idOf l v with
-    | none => obtain ⟨i, hi⟩ := idOf_of_mem l v (hx v rfl) 2; rw [h] at hi; cases hi
-    | some i => have := idOf_bounds l v 2 i h; simp only [contains, decide_eq_true_eq]; omega
-
 theorem rangeFrom_eq (k n : Nat) : rangeFrom k n = List.range' k n := by
   induction n generalizing k with
   | zero => rfl
@@ -544,10 +532,8 @@ theorem C02_acl_default_in_space (o : AclObs) : contains o.space o.default = tru
 counterexample below) -/
 def AclObs.CfgOk (o : AclObs) : Prop := o.ips.Nodup ∧ o.wcs.Nodup ∧ o.ports.Nodup ∧ o.protos.Nodup
 
-/-- state the encoder handles without raising: enough slots, and every address a rule names is in `ip_list` -/
-def AclObs.SlotsOk (o : AclObs) (slots : List (Option RuleState)) : Prop :=
-  o.numRules ≤ slots.length ∧
-  ∀ r ∈ slots, ∀ x, r = some x → (∀ ip, x.srcIp = some ip → ip ∈ o.ips) ∧ (∀ ip, x.dstIp = some ip → ip ∈ o.ips)
+/-- state the encoder handles without raising: the ACL has at least `num_rules` slots -/
+def AclObs.SlotsOk (o : AclObs) (slots : List (Option RuleState)) : Prop := o.numRules ≤ slots.length
 
 def AclObs.Compat (o : AclObs) (st : SimState) : Prop := o.CfgOk ∧ ∀ slots, o.find st = some slots → o.SlotsOk slots
 
@@ -562,8 +548,8 @@ theorem AclObs.find_wf {capture o st slots} (w : WfState capture st) (hf : AclOb
     obtain ⟨n, hn, hl⟩ := node_bind hf
     exact (w.node hn).2.2.2.2.2.2 (a, slots) (lookupS_mem hl)
 
-/-- ACL observation, **partial**: holds for every state in which no rule names an address outside `ip_list`, the observation
-does not ask for more slots than the ACL has, and the configured lists have no repeated entry. -/
+/-- ACL observation, **partial**: holds for every state in which the observation does not ask for more slots than the ACL has
+and the configured lists have no repeated entry (an address outside `ip_list` encodes as 1 since the F-7 fix). -/
 theorem C02_acl_in_space_partial (capture : Bool) (o : AclObs) (st : SimState) (w : WfState capture st) (c : o.Compat st) :
     contains o.space (o.val st) = true := by
   unfold AclObs.val
@@ -572,7 +558,7 @@ theorem C02_acl_in_space_partial (capture : Bool) (o : AclObs) (st : SimState) (
   | some slots =>
     have ws := AclObs.find_wf w hf
     obtain ⟨⟨hips, hwcs, hports, hprotos⟩, hc⟩ := c
-    obtain ⟨hlen, hip⟩ := hc slots hf
+    have hlen : o.numRules ≤ slots.length := hc slots hf
     unfold AclObs.space
     refine contains_dict_of_par (Par.map _ _ _ _ (fun i hi => ?_)) (aclKeys_nodup _ _ _)
     rw [rangeFrom_eq] at hi
@@ -585,13 +571,12 @@ theorem C02_acl_in_space_partial (capture : Bool) (o : AclObs) (st : SimState) (
     | some r =>
       have hmem : slots[i] ∈ slots := List.getElem_mem hlt
       have hact := C02_leaf_acl_action _ (ws _ hmem r hr)
-      have hips' := hip _ hmem r hr
       simp only [AclObs.ruleVal, AclObs.ruleSpace]
-      exact aclRule_par (by simp [contains, hi']) (by simp [contains, hact]) (ipId_in_space _ hips _ hips'.1)
-        (getId_in_space _ hwcs _) (getId_in_space _ hports _) (ipId_in_space _ hips _ hips'.2) (getId_in_space _ hwcs _)
+      exact aclRule_par (by simp [contains, hi']) (by simp [contains, hact]) (getId_in_space _ hips _)
+        (getId_in_space _ hwcs _) (getId_in_space _ hports _) (getId_in_space _ hips _) (getId_in_space _ hwcs _)
         (getId_in_space _ hports _) (getId_in_space _ hprotos _)
 
-/-- The unrestricted ACL statement. It is FALSE of the code (findings F-6, F-7 and the repeated-entry case). -/
+/-- The unrestricted ACL statement. It is FALSE of the code (finding F-6 and the repeated-entry case). -/
 def C02_FullAcl : Prop :=
   ∀ (o : AclObs) (st : SimState), WfState false st → contains o.space (o.val st) = true
 
@@ -631,9 +616,9 @@ theorem witnessRule_wf (slots : List (Option RuleState)) (h : ∀ r ∈ slots, r
   · rw [h] at hx; cases hx
   · rw [h] at hx; injection hx with hx; subst hx; exact (by decide : (1 : Nat) ∈ ACLAction.values)
 
-/-- F-7: a rule naming an address that is not in `ip_list` makes `observe` raise (KeyError), so nothing in the space is returned. -/
-theorem C02_acl_unknown_ip_counterexample :
-    WfState false f7State ∧ (f7Obs.val f7State).raises = true ∧ contains f7Obs.space (f7Obs.val f7State) = false :=
+/-- F-7 (fixed): a rule naming an address that is not in `ip_list` now encodes that address as 1 and stays in the space. -/
+theorem C02_acl_unknown_ip_fixed :
+    WfState false f7State ∧ (f7Obs.val f7State).raises = false ∧ contains f7Obs.space (f7Obs.val f7State) = true :=
   ⟨witnessRule_wf _ (by intro r hr; simp only [List.mem_singleton] at hr; exact Or.inr ⟨_, hr⟩), by decide, by decide⟩
 
 /-- F-6: `num_rules` larger than the number of slots the ACL has makes `observe` raise (KeyError). -/
@@ -649,8 +634,8 @@ theorem C02_acl_repeated_entry_counterexample :
 
 theorem C02_acl_counterexample : ¬ C02_FullAcl := by
   intro h
-  have h2 := h f7Obs f7State C02_acl_unknown_ip_counterexample.1
-  rw [C02_acl_unknown_ip_counterexample.2.2] at h2
+  have h2 := h f6Obs f6State C02_acl_too_many_rules_counterexample.1
+  rw [C02_acl_too_many_rules_counterexample.2.2] at h2
   cases h2
 
 /-- non-vacuity of the partial theorem: a state with a real rule satisfies the hypotheses -/
@@ -664,13 +649,7 @@ example :
   have : slots = [some (witnessRule (some "10.0.0.2")), none, none] := by
     simp [AclObs.find, witnessState, SimState.node, lookupS] at hs; exact hs.symm
   subst this
-  refine ⟨by decide, ?_⟩
-  intro r hr x hx
-  simp only [List.mem_cons, List.mem_nil_iff, or_false] at hr
-  rcases hr with h | h | h <;> subst h
-  · injection hx with hx; subst hx; exact ⟨by intro ip h; injection h with h; subst h; decide, by intro ip h; cases h⟩
-  · cases hx
-  · cases hx
+  exact (by decide : 2 ≤ 3)
 
 /-! ### host -/
 
@@ -889,7 +868,7 @@ def Obs.OkL : List (String × Obs) → Prop
 end
 
 mutual
-/-- the ACL-carrying parts do not raise on this state (excludes exactly F-6, F-7 and repeated list entries) -/
+/-- the ACL-carrying parts do not raise on this state (excludes exactly F-6 and repeated list entries) -/
 def Obs.Compat (st : SimState) : Obs → Prop
   | .acl o => o.Compat st
   | .router o => o.Compat st
